@@ -328,7 +328,13 @@ def run(ctx, replay=None):
     open(bf, "w").write("".join(behs))
     tf = ctx.path("trace.ndjson")
     ctx.record(exe, bf, tf, timeout=3000, env=renv, parallel=vlib.NCPU)
-    rejs = ctx.validate("TraceSynthetic", tf, nshards=64 if thorough else 32, timeout=3000)
+    rejs = ctx.validate("TraceSynthetic", tf, nshards=64 if thorough else 32, timeout=3000, max_rej=3)
+    if len(rejs) > 16:
+        # every rejection is replayed in a fresh process: confirm a sample, one per kind of rejected event first
+        ctx.notes.append("%d behaviours were rejected; 16 of them were replayed and reported" % len(rejs))
+        rejs.sort(key=lambda r: (r["line"][:40], r["beh"]))
+        step = len(rejs) / 16.0
+        rejs = [rejs[int(i * step)] for i in range(16)]
     ctx.handle_rejections(rejs, behs, replay_fn)
     return ctx.finish(
         rule="descriptions = every word of the bounded grammar of MC_Synthetic.tla (levels over Group/Package/Die/L3/L2/L1/Core/NUMA + PU, arities, attached NUMA "
